@@ -912,7 +912,7 @@ def evaluate_intersections(ctx, n_blocks, seed):
     rng = np.random.default_rng([seed, 161616])
     tol = 1e-14
     for blk in range(n_blocks):
-        fam = ["grid8", "grid8", "uniform", "touching"][blk % 4]
+        fam = ["grid8", "grid8", "uniform", "touching", "shallow"][blk % 5]
         n, m = int(rng.integers(2, 9)), int(rng.integers(2, 9))
         if fam == "grid8":
             A = rng.integers(-8, 17, size=(n, 2, 2)) / 8.0
@@ -920,6 +920,18 @@ def evaluate_intersections(ctx, n_blocks, seed):
         elif fam == "uniform":
             A = rng.uniform(-1, 2, size=(n, 2, 2))
             B = rng.uniform(-1, 2, size=(m, 2, 2))
+        elif fam == "shallow":
+            # segments that really cross, in general position, at a shallow angle 2^-k (k = 16..26), none of them axis-aligned:
+            # the cross product of the directions is ~1e-5..1e-8, far above the 1e-14 parallel tolerance
+            A = np.zeros((n, 2, 2)); B = np.zeros((n, 2, 2)); m = n
+            for i in range(n):
+                p = rng.integers(-4, 9, size=2) / 8.0
+                d = np.array([int(rng.integers(3, 9)), int(rng.integers(2, 8)) * int(rng.choice([-1, 1]))]) / 8.0
+                eps = 2.0 ** -int(rng.integers(16, 27))
+                d2 = d + eps * np.array([-d[1], d[0]])
+                mid = p + d / 2
+                A[i] = [p, p + d]
+                B[i] = [mid - d2 / 4 * int(rng.integers(1, 3)), mid + d2 / 4]
         else:   # B starts/ends on points of A (dyadic, so exactly representable)
             A = rng.integers(-8, 17, size=(n, 2, 2)) / 8.0
             B = rng.integers(-8, 17, size=(m, 2, 2)) / 8.0
